@@ -6,6 +6,7 @@ import Cog.Builder.Vir
 import Cog.Builder.FromAST
 import Cog.Builder.Safe
 import Cog.Builder.Witness
+import Cog.Builder.Str
 namespace Cog.Drv
 open Cog Cog.IR Cog.Builder
 
@@ -38,5 +39,17 @@ def c16witnessLine (rest : String) : String :=
   | "dangling" => (IR.Vir.schemasOut danglingWitness).render
   | "optional-const-ref" => (IR.Vir.schemasOut optionalConstRefWitness).render
   | _ => "unknown-witness"
+
+/-- `bstr <fn> "<string>" ["<string>"]`: the ASCII string helper models -/
+def bstrLine (rest : String) : String :=
+  match Sexp.parseMany rest with
+  | some [.atom "lcc", .str s] => Sexp.quote (Str.lowerCamelCase s)
+  | some [.atom "ucc", .str s] => Sexp.quote (Str.upperCamelCase s)
+  | some [.atom "sing", .str s] => Sexp.quote (Str.singularize s)
+  | some [.atom "fold", .str a, .str b] => toString (Str.equalFold a b)
+  | some [.atom "cut", .str s] => match Str.cutDot s with
+    | some (a, b) => Sexp.quote a ++ " " ++ Sexp.quote b
+    | none => "none"
+  | _ => "bad-request"
 
 end Cog.Drv
